@@ -539,7 +539,7 @@ package originium
 //@ props C14 C03
 //@ requires imt != nil && imt.wal != nil && walOK(imt.wal) && db.manager != nil
 //@ thin ^assert|^pre\..*wal
-//@ assigns everything
+//@ assigns writeset
 //@ before_call (*wal.WAL).Delete#0: assert DskEx[FlushOut] && DskSync[FlushOut] == len(DskData[FlushOut]) && DskData[FlushOut] == FlushBytes
 //
 //@ func (*originium.memtable).all -> r
@@ -552,14 +552,14 @@ package originium
 //@ props C14 C03 C04
 //@ requires mt != nil && mt.wal != nil && walOK(mt.wal)
 //@ thin ^post|^pre\..*wal
-//@ assigns everything
+//@ assigns writeset
 //@ ensures DskSync[mt.wal.path] == len(DskData[mt.wal.path]) && DskData[mt.wal.path] == old(DskData[mt.wal.path]) + WalRec
 //
 //@ func (*originium.memtable).recover -> r
 //@ props C14 C03
 //@ requires mt != nil && mt.wal != nil && walOK(mt.wal)
 //@ thin ^assert|^loop[12]|^pre\..*wal\.WAL_?\)?\.Write|^pre\..*Delete
-//@ assigns everything
+//@ assigns writeset
 //@ after_call (*wal.WAL).Read#0: ghost RecN = 0
 //@ after_call (*wal.WAL).Write#0: ghost RecN = RecN + 1
 //@ before_call (*wal.WAL).Delete#0: assert RecN == len(entries) && (RecN > 0 ==> DskSync[mt.wal.path] == len(DskData[mt.wal.path]))
@@ -578,7 +578,7 @@ package originium
 //@ props C12 C14 C03
 //@ holds lm.mu
 //@ thin ^assert|^pre\.os\.|^pre\..*os\.File
-//@ assigns everything
+//@ assigns writeset
 //@ after_call os.OpenFile#0: ghost CompOut = FdPath[ref(result0)]
 //@ after_call os.OpenFile#0: ghost CompCreated = (result1 == nil)
 //@ before_call os.Remove#0: assert outDurable(tableBytes)
@@ -587,7 +587,7 @@ package originium
 //@ props C12 C14 C03
 //@ holds lm.mu
 //@ thin ^assert|^pre\.os\.|^pre\..*os\.File
-//@ assigns everything
+//@ assigns writeset
 //@ after_call os.OpenFile#0: ghost CompOut = FdPath[ref(result0)]
 //@ after_call os.OpenFile#0: ghost CompCreated = (result1 == nil)
 //@ before_call os.Remove#0: assert outDurable(tableBytes)
